@@ -36,7 +36,7 @@ def shards(tier):
 
 def required_classes(tier):
     out = ["av:" + p for p in PERTS if p not in ("identity-key",)] + ["fav:" + p for p in ("sig-length", "key-plus-torsion", "honest", "drop-signer", "dup-signer", "subst-key", "empty", "empty-infinity", "bad-key", "sk-and-r-sk", "negated", "other-message")]
-    out += ["mutable-list-reused", "msg:starts-with-own-pk", "agg:multiplicity", "agg:sum", "agg:permutation", "agg:bracketing", "agg:refuse", "agg:undecodable", "suite:basic", "suite:aug", "suite:pop", "n>=2"]
+    out += ["typed-variants", "mutable-list-reused", "msg:starts-with-own-pk", "agg:multiplicity", "agg:sum", "agg:permutation", "agg:bracketing", "agg:refuse", "agg:undecodable", "suite:basic", "suite:aug", "suite:pop", "n>=2"]
     return out
 
 
@@ -101,6 +101,13 @@ def run(rec):
                          [sigs[0], Z.enc_g2(E2.neg(Z.dec_g2(sigs[0])))], [inf_sig, sigs[0], inf_sig]):
             rec.case("agg:multiplicity", ("aggm", tuple(rep_list)), sample={"fn": "Aggregate", "suite": suite, "entries": len(rep_list), "distinct": len(set(rep_list))})
             call(S.Aggregate, list(rep_list))
+        # tuples instead of lists, a bytes subclass instead of bytes
+        from .common import BytesSub
+        rec.case("typed-variants", None, nontrivial=False)
+        call(S.Aggregate, tuple(sigs))
+        call(S.Aggregate, [BytesSub(x) for x in sigs])
+        call(S.AggregateVerify, tuple(pks), tuple(msgs), agg)
+        call(S.AggregateVerify, [BytesSub(x) for x in pks], [BytesSub(x) for x in msgs], BytesSub(agg))
         # the same list OBJECTS passed again after they were changed in place
         lst = list(sigs)
         kl, ml = list(pks), list(msgs)
